@@ -34,7 +34,7 @@ Recognised subset (anything else raises Untranslatable with file:line):
              | `a if <cond> else b`
   conditions : < <= > >= == between expressions | and / or
              | e.is_zero | fuzzy_not(e.is_zero) | e.is_nonnegative | e.is_negative
-             | e.is_integer and e.is_even / e.is_odd
+             | e.is_integer and e.is_even / e.is_odd | x == np.round(x) | e % 2 == 0
 """
 import ast
 import hashlib
@@ -166,9 +166,19 @@ class Lower:
         if isinstance(c, ast.Compare):
             if len(c.ops) != 1:
                 fail(c, 'chained comparison', F)
-            a = self.expr(c.left, env)
-            b = self.expr(c.comparators[0], env)
             o = type(c.ops[0])
+            rhs = c.comparators[0]
+            # x == np.round(x): x is an integer
+            if o is ast.Eq and isinstance(rhs, ast.Call) and ast.unparse(rhs.func) == 'np.round' and len(rhs.args) == 1 \
+                    and not rhs.keywords and ast.unparse(rhs.args[0]) == ast.unparse(c.left):
+                return ('isint', self.expr(c.left, env))
+            # e % 2 == 0: e is an even integer
+            if o is ast.Eq and isinstance(c.left, ast.BinOp) and isinstance(c.left.op, ast.Mod) \
+                    and isinstance(c.left.right, ast.Constant) and c.left.right.value == 2 \
+                    and isinstance(rhs, ast.Constant) and rhs.value == 0:
+                return ('iseven', self.expr(c.left.left, env))
+            a = self.expr(c.left, env)
+            b = self.expr(rhs, env)
             if o is ast.Lt:
                 return ('lt', a, b)
             if o is ast.LtE:
@@ -260,10 +270,13 @@ class NumFuncs:
         self.load_acdc()
 
     def read(self, rel):
+        import warnings
         p = os.path.join(self.repo, rel)
         src = open(p).read()
         self.files[rel] = hashlib.sha256(src.encode()).hexdigest()
-        return ast.parse(src)
+        with warnings.catch_warnings():
+            warnings.simplefilter('ignore')
+            return ast.parse(src)
 
     # -- config.py ----------------------------------------------------------
     def load_config(self):
@@ -392,7 +405,11 @@ class NumFuncs:
         self.structure = prog
         # the final dispatch of evaluate: evaluate_expr(expr, var, arg), retried on the simplified expression
         last = ev.body[-1]
-        if ast.unparse(last) != 'try:\n    return evaluate_expr(expr, var, arg)\nexcept:\n    return evaluate_expr(expr.simplify(), var, arg)':
+        ok_last = ['try:\n    return evaluate_expr(expr, var, arg)\nexcept:\n    return evaluate_expr(expr.simplify(), var, arg)',
+                   # variant that refuses to simplify away a Piecewise without an otherwise-clause
+                   'try:\n    return evaluate_expr(expr, var, arg)\nexcept:\n    if expr.is_Piecewise and expr.args[-1][1] != True:\n        raise\n'
+                   '    return evaluate_expr(expr.simplify(), var, arg)']
+        if ast.unparse(last) not in ok_last:
             fail(last, 'final dispatch of evaluate changed', F)
 
     # -- extrafunctions.py ---------------------------------------------------
@@ -806,14 +823,14 @@ class Emit:
             g = self.funs[tn]
             if len(e[2]) != len(g['params']):
                 raise Untranslatable('%s:%d: wrong number of arguments for %s' % (f['src'], f['line'], e[1]))
-            return '(%s %s)' % (tn, ' '.join(self.kexpr(f, a, env) for a in e[2]))
+            return '(%s K sn pi int_of %s)' % (tn, ' '.join(self.kexpr(f, a, env) for a in e[2]))
         raise Untranslatable('%s:%d: %s not allowed in a sinc-family definition' % (f['src'], f['line'], t))
 
     def kcond(self, f, c, env):
         t = c[0]
         if t == 'eq':
             return '(keqb K %s %s)' % (self.kexpr(f, c[1], env), self.kexpr(f, c[2], env))
-        if t in ('iseven', 'isodd'):
+        if t in ('iseven', 'isodd', 'isint'):
             return '(k_%s (int_of %s))' % (t, self.kexpr(f, c[1], env))
         if t in ('or', 'and'):
             return '(%sb %s %s)' % (t, self.kcond(f, c[1], env), self.kcond(f, c[2], env))
@@ -854,7 +871,7 @@ class Emit:
             out.append('Definition %s %s : %s :=\n%s.\n' % (nm, ps, 'option Q' if f['rtype'] == 'OQ' else 'Q',
                                                          self.qtree(f, f['tree'], env, 1)))
             qn.append(nm)
-        out.append('Section SincFamily.\nVariable K : fld.\nVariable sn : K -> K.\nVariable pi : K.\nVariable int_of : K -> option Z.\n')
+        out.append('(* sinc family: abstract field K, abstract sine sn, constant pi, integrality oracle int_of *)')
         for nm in self.order:
             f = self.funs[nm]
             if f['domain'] != 'K':
@@ -863,9 +880,8 @@ class Emit:
                 raise Untranslatable('%s:%d: optional parameter in a sinc-family definition' % (f['src'], f['line']))
             ps = ' '.join('(p_%s : K)' % p for p, k in f['params'])
             out.append('(* %s:%d *)' % (f['src'], f['line']))
-            out.append('Definition %s %s : K :=\n%s.\n' % (nm, ps, self.ktree(f, f['tree'], {}, 1)))
+            out.append('Definition %s (K : fld) (sn : K -> K) (pi : K) (int_of : K -> option Z) %s : K :=\n%s.\n' % (nm, ps, self.ktree(f, f['tree'], {}, 1)))
             kn.append(nm)
-        out.append('End SincFamily.\n')
         # causal short-circuit of `func`
         cz = nf.causal
         fz = {'src': 'lcapy/expr.py', 'line': cz['line'], 'side': 'num', 'rtype': 'Q'}
